@@ -1,5 +1,7 @@
 import Gaftools.Props.C18
+import Gaftools.Props.TieA2
 #print axioms Gaftools.C18.skip_isolated
 #print axioms Gaftools.C18.runOrder_total
 #print axioms Gaftools.C18.written_names
 #print axioms Gaftools.C18.runOrder_ranges
+#print axioms Gaftools.TieA.finishScaffold_gen
